@@ -82,6 +82,7 @@ type State struct {
 	Seq    int               // allocation sequence number
 	FreshSeq map[string]int  // fresh ref -> sequence number of its allocation
 	Older    map[string]int  // term -> sequence number at which the reference was known to exist
+	PostEntry map[string]bool // reference terms known to denote objects allocated after function entry
 	Heap   map[string]string // heap array name -> current symbol
 	Fwd    map[string]Val    // store-to-load forwarding: array prefix + "@" + ref [+ "#" idx]
 	Frames []*Frame
@@ -100,6 +101,8 @@ type State struct {
 	StorageOps int
 	// Dirty: heap arrays written at a reference not allocated on this path
 	Dirty map[string]bool
+	// Flags: ghost events of this path (e.g. the base listener's Accept failed)
+	Flags map[string]bool
 }
 
 func (s *State) clone() *State {
@@ -113,6 +116,10 @@ func (s *State) clone() *State {
 	t.FreshSeq = make(map[string]int, len(s.FreshSeq))
 	for k, v := range s.FreshSeq {
 		t.FreshSeq[k] = v
+	}
+	t.PostEntry = make(map[string]bool, len(s.PostEntry))
+	for k, v := range s.PostEntry {
+		t.PostEntry[k] = v
 	}
 	t.Older = make(map[string]int, len(s.Older))
 	for k, v := range s.Older {
@@ -142,6 +149,10 @@ func (s *State) clone() *State {
 	t.Trace = append([]string(nil), s.Trace...)
 	t.Branch = append([]Term(nil), s.Branch...)
 	t.Notes = s.Notes
+	t.Flags = make(map[string]bool, len(s.Flags))
+	for k, v := range s.Flags {
+		t.Flags[k] = v
+	}
 	t.Dirty = make(map[string]bool, len(s.Dirty))
 	for k, v := range s.Dirty {
 		t.Dirty[k] = v
@@ -162,6 +173,7 @@ func (s *State) snapshot() *State {
 	}
 	t.Fresh = s.Fresh
 	t.FreshSeq = s.FreshSeq
+	t.PostEntry = s.PostEntry
 	t.Older = s.Older
 	t.Seq = s.Seq
 	t.Log = make(map[string]*logNode, len(s.Log))
@@ -248,6 +260,12 @@ func (st *State) distinct(a, b Term) bool {
 	if fa && fb {
 		return true
 	}
+	if (fa || st.PostEntry[a.S]) && st.isEntryOld(b) {
+		return true
+	}
+	if (fb || st.PostEntry[b.S]) && st.isEntryOld(a) {
+		return true
+	}
 	if fa {
 		if o, ok := st.Older[b.S]; ok && o < st.FreshSeq[a.S] {
 			return true
@@ -265,6 +283,14 @@ func (st *State) distinct(a, b Term) bool {
 		}
 	}
 	return false
+}
+
+func (st *State) isEntryOld(t Term) bool {
+	if isLit(t, "0") {
+		return true
+	}
+	o, ok := st.Older[t.S]
+	return ok && o == 0
 }
 
 func (st *State) markOlder(t Term) {
@@ -382,7 +408,39 @@ func (c *Ctx) writeComp(st *State, name string, sort string, ref Term, v Term) {
 // element arrays: Int -> (Int -> sort)
 func (c *Ctx) readElem(st *State, name string, sort string, ref, idx Term) Term {
 	inner := arrSort(SInt, sort)
-	return Select(Select(c.heapCur(st, name, arrSort(SInt, inner)), ref, inner), idx, sort)
+	return Select(c.readRow(st, name, inner, ref), idx, sort)
+}
+
+// readRow: the element row of backing object ref, resolved through the chain of
+// row writes where the written reference is certainly different from ref.
+func (c *Ctx) readRow(st *State, name string, inner string, ref Term) Term {
+	as := arrSort(SInt, inner)
+	for n := st.Log[name]; n != nil; n = n.parent {
+		if n.ref.S == ref.S {
+			return n.val
+		}
+		if !st.distinct(n.ref, ref) {
+			return Select(Term{n.after, as}, ref, inner)
+		}
+		if n.parent == nil {
+			return Select(Term{n.before, as}, ref, inner)
+		}
+	}
+	return Select(c.heapCur(st, name, as), ref, inner)
+}
+
+// writeRow replaces the whole element row of backing object ref.
+func (c *Ctx) writeRow(st *State, name string, inner string, ref Term, row Term) {
+	if !st.Fresh[ref.S] {
+		st.Dirty[name] = true
+	}
+	as := arrSort(SInt, inner)
+	a := c.heapCur(st, name, as)
+	prev := st.Log[name]
+	d := c.define(st, "H!"+name, StoreT(a, ref, row))
+	st.Heap[name] = d.S
+	rd := c.define(st, "row!"+name, row)
+	st.Log[name] = &logNode{parent: prev, ref: ref, val: rd, after: d.S, before: a.S}
 }
 
 func (c *Ctx) writeElem(st *State, name string, sort string, ref, idx Term, v Term) {
@@ -390,9 +448,8 @@ func (c *Ctx) writeElem(st *State, name string, sort string, ref, idx Term, v Te
 		st.Dirty[name] = true
 	}
 	inner := arrSort(SInt, sort)
-	a := c.heapCur(st, name, arrSort(SInt, inner))
-	row := Select(a, ref, inner)
-	c.heapSet(st, name, StoreT(a, ref, StoreT(row, idx, v)))
+	row := c.readRow(st, name, inner, ref)
+	c.writeRow(st, name, inner, ref, StoreT(row, idx, v))
 }
 
 func (c *Ctx) fwdInvalidate(st *State, prefix string, keep string, ref Term) {
@@ -469,8 +526,22 @@ func (c *Ctx) loadLoc(st *State, a *Addr) Val {
 		return Val{K: VStruct, GoT: a.T}
 	}
 	v, _ := unflatten(a.T, ts)
+	c.normalizeEntrySlice(st, a, &v)
 	c.decorateLoaded(st, &v)
 	return v
+}
+
+// normalizeEntrySlice: a slice value stored in the entry heap is identified by
+// (backing reference, start); the reference is taken to denote the start, so its
+// offset is 0 (assumption: slices stored in entry objects do not partially overlap).
+func (c *Ctx) normalizeEntrySlice(st *State, a *Addr, v *Val) {
+	if v.K != VSlice {
+		return
+	}
+	if _, written := st.Heap[a.Prefix+"!off"]; written {
+		return
+	}
+	v.Off = IntT(0)
 }
 
 // decorateLoaded adds the typing facts of values read from the heap.
